@@ -129,7 +129,7 @@ func (s *breakerSubject) take() ([]any, string) {
 
 // waitEffects waits until the asynchronous side effects stop arriving.
 func (s *breakerSubject) waitEffects(wantT, wantS int64) (int64, int64) {
-	deadline := time.Now().Add(2 * time.Second)
+	deadline := time.Now().Add(15 * time.Second) // only waited out when an execution is really missing
 	for time.Now().Before(deadline) {
 		if s.onTripped.n.Load() >= wantT && s.onStandby.n.Load() >= wantS {
 			break
